@@ -24,7 +24,7 @@ from fractions import Fraction
 import numpy as np
 from common import *
 
-IMPORTS = "From CV Require Import Base.Cmp Model.C09_Gibbs.\nFrom Coq Require Import QArith.\nLocal Open Scope Q_scope."
+IMPORTS = "From CV Require Import Base.Cmp Model.C09_Gibbs Model.C09_Gibbs2.\nFrom Coq Require Import QArith.\nLocal Open Scope Q_scope."
 RULE = ("EXACT cells on dyadic quadratic joints (2-4 blocks, dims 1-2, cycles, indefinite own terms, 0-2 data factors, names "
         "shuffled, strategy dict order != par_names, density declaration order varied): 15 HybridGibbs + 9 legacy base cells, "
         "num_sampling_steps lattice {missing,1,2,3}^2, legacy tuple-group lattice, two-parent priors, scale 2^-40..2^40, fine-move "
@@ -1307,6 +1307,8 @@ def cache_probe_real(which):
 # real CUQIpy families and the real block samplers (kernels opaque: the model is handed what they returned)
 # ------------------------------------------------------------------------------------------
 TOL_REAL = Fraction(1, 10 ** 7)
+NOISY = ("LinearRTO", "UGLA", "RegularizedLinearRTO")      # block samplers whose draw is a (constrained) least-squares solve with perturbed data
+UGLA_BETA = 1e-5                                           # UGLA's documented default smoothing parameter
 
 
 def real_model(meta):
@@ -1350,7 +1352,9 @@ def real_kind(meta, i):
     if a == "Conjugate":
         return "KConj"
     if a == "LinearRTO":
-        return "KLrto" if meta.get("zero_noise") else "KRec"
+        return "KLrto"            # zero noise: conditional mean from the target's Hessian; scripted noise: stacked least-squares draw (real_lsspec)
+    if a == "UGLA":
+        return "KLrto"            # stacked least-squares draw with the Laplace weights at the current point
     if a == "NUTS":
         return "KNuts"
     return "KOpq" if a in ("MH", "CWMH", "MALA", "ULA", "PCN") else "KRec"
@@ -1398,18 +1402,40 @@ def real_sampler(meta, i, tr):
                 cap["z"] = z
                 size = k.get("size", a[2] if len(a) > 2 else None)
                 return np.ones(size if size is not None else ()) * z * np.asarray(k.get("scale", a[1] if len(a) > 1 else 1.0), dtype=float)
-            if meta["assign"][self._blk] == "Conjugate":
+            if meta["assign"][self._blk] in ("Conjugate", "ConjugateApprox"):
                 np.random.gamma = gam
-            if meta["assign"][self._blk] == "LinearRTO" and meta.get("zero_noise"):
-                np.random.randn = lambda *a: np.zeros(a)
+            if nm_a in NOISY:
+                # samplers that PRECOMPUTE from their target when they are (re-)initialised: what they hold when the update starts
+                def dense(Mx):
+                    if callable(Mx) and not hasattr(Mx, "toarray"):          # matrix-free form M(x, 1) = M x: its columns
+                        return np.array([np.ravel(Mx(u, 1)) for u in np.eye(len(np.ravel(self.current_point)))], dtype=float).T.tolist()
+                    return (Mx.toarray() if hasattr(Mx, "toarray") else np.asarray(Mx, dtype=float)).tolist()
+                if nm_a == "UGLA":
+                    ev["pre"] = {"L1": dense(self._L1), "m": int(self._m), "loc": [float(a) for a in np.ravel(self._priorloc)]}
+                else:
+                    ev["pre"] = {"M": dense(self.M), "b": [float(a) for a in np.ravel(self.b_tild)]}
+                    if nm_a == "RegularizedLinearRTO":
+                        ev["pre"]["stepsize"] = float(self._stepsize)
+                used = []
+
+                def randn(*shape):                      # scripted standard normals (dyadic), or zeros
+                    nn = int(np.prod(shape)) if shape else 1
+                    vals = [0.0] * nn if meta.get("zero_noise") else [(self._es.pop(0) if self._es else 0.0) for _ in range(nn)]
+                    used.extend(vals)
+                    return np.asarray(vals, dtype=float).reshape(shape) if shape else vals[0]
+                np.random.randn = randn
             try:
                 acc = super().step()
             finally:
                 np.random.gamma, np.random.randn = orig_g, orig_n
             if cap:
                 ev["gamma"] = [cap["shape"], cap["scale"]]
-                ev["gshape"] = cap["shape"]
+                if nm_a == "Conjugate":
+                    ev["gshape"] = cap["shape"]
                 self._tr.zused[self._blk].append(cap["z"])
+            if nm_a in NOISY:
+                ev["e"] = used
+                ev["out"] = [float(a) for a in np.asarray(self.current_point).ravel()]
             if meta["assign"][self._blk] == "LinearRTO" and meta.get("zero_noise"):
                 ev["zmean"] = [float(a) for a in np.asarray(self.current_point).ravel()]
             self._tr.results[self._blk].append([float(a) for a in np.asarray(self.current_point).ravel()])
@@ -1423,12 +1449,15 @@ def real_sampler(meta, i, tr):
         kw["scale"] = sc
     if meta["assign"][i] == "NUTS":
         kw["max_depth"] = 3
-    if meta["assign"][i] == "LinearRTO":
+    if meta["assign"][i] in ("LinearRTO", "UGLA"):
         # CGLS converges in dim steps in exact arithmetic; a few more with tol 1e-10 (iterating far beyond convergence makes
         # CGLS divide by round-off and blow up -- seen with maxit=200, tol=1e-14): the zero-noise draw is then the conditional mean
         kw["maxit"], kw["tol"] = len(ip) + 3, 1e-10
+    if meta["assign"][i] == "RegularizedLinearRTO":
+        kw["maxit"], kw["abstol"] = 3000, 1e-13
     smp = W(**kw)
     smp._tr, smp._blk = tr, i
+    smp._es = list(meta.get("ens", [[]] * len(meta["assign"]))[i])
     smp._zs = list(meta.get("zs", [[]] * len(meta["assign"]))[i])
     return smp
 
@@ -1489,13 +1518,65 @@ def real_script(meta, obs):
     res = obs.get("results") or [[] for _ in range(k)]
     zus = obs.get("zused") or [[] for _ in range(k)]
 
+    evs_of = [[e for e in obs.get("events", []) if e["blk"] == i] for i in range(k)]
+
     def item(i, n):
         vec = res[i][n] if n < len(res[i]) else [0.0] * meta["spec"]["dims"][i]      # fewer transitions than configured: the oracle reports it
+        if real_ls_block(meta, i) and n < len(evs_of[i]):
+            vec = real_ls_item(meta, i, evs_of[i][n], vec)
         it = {"vec": vec, "u": None, "acc": 1}
         if real_kind(meta, i) == "KConj":       # the model computes the draw itself: scripted standard variate / rate (the observed
             it["z"] = zus[i][n] if n < len(zus[i]) else 1.0          # point is only adopted when it agrees to 1e-7)
         return it
     return [[[item(i, t * nst[i] + j) for j in range(nst[i])] for i in range(k)] for t in range(nsw)]
+
+
+def real_ls_block(meta, i):
+    """is block i drawn by the MODEL's stacked least-squares draw (Model/C09_Gibbs2.v rto_trans)?"""
+    a = meta["assign"][i]
+    if i in meta.get("opaque", []):
+        return False
+    return (a == "LinearRTO" and meta["model"] == "hier" and not meta.get("zero_noise")) or (a == "UGLA" and meta["model"] == "lmrf")
+
+
+def real_lsspec(meta, i):
+    """Coq term (option lsspec) of block i: the Gaussian factors in the order in which the sampler stacks them"""
+    if not real_ls_block(meta, i):
+        return "None"
+    names = meta["spec"]["names"]
+    k = len(names)
+    g = Fraction(meta["sigma"])
+    ix = {n: j for j, n in enumerate(names)}
+    row = lambda c, cos: "(mkRow %s %s)" % (cq(c), clist([cqvec(cos.get(b, [])) for b in range(k)]))
+    A = [[Fraction(a) / g for a in r] for r in meta["A"]]
+    n = len(A[0])
+    lik = "(mkGF (inl %s) %s)" % (cnat(ix["l"]), clist([row(meta["y"][r], {ix["x"]: A[r]}) for r in range(len(A))]))
+    if meta["model"] == "lmrf":
+        Dcols = [_diffs([float(j == c) for c in range(n)]) for j in range(n)]
+        pri = "(mkGF (inl %s) %s)" % (cnat(ix["d"]), clist([row(0, {ix["x"]: [Fraction(Dcols[j][r]) for j in range(n)]}) for r in range(n + 1)]))
+        return "(Some [(%s, None); (%s, Some %s)])" % (lik, pri, cq(UGLA_BETA))
+    unit = lambda j: [Fraction(int(j == c)) for c in range(n)]
+    pri = "(mkGF (inl %s) %s)" % (cnat(ix["d"]), clist([row(0, {ix["x"]: unit(j)}) for j in range(n)]))
+    return "(Some [(%s, None); (%s, None)])" % (lik, pri)
+
+
+def real_ls_item(meta, i, ev, out):
+    """random item of a least-squares block: observed point ++ scripted normals ++ certificates sqrt(w_r) ++ certificates dd_r
+    (dd_r = 1 / sqrt(t_r^2 + beta) for the Laplace-approximated rows, 1 otherwise; w_r = precision of the row's factor * dd_r)"""
+    names = meta["spec"]["names"]
+    cur = {names[b]: ev["cur"][b] for b in range(len(names))}
+    l, d = float(cur["l"][0]), float(cur["d"][0])
+    m = len(meta["A"])
+    n = len(meta["A"][0])
+    if meta["model"] == "lmrf":
+        dx = _diffs(ev["pt"])
+        dd = [1.0] * m + [1.0 / math.sqrt(t * t + UGLA_BETA) for t in dx]
+        w = [l] * m + [d * v for v in dd[m:]]
+    else:
+        dd = [1.0] * (m + n)
+        w = [l] * m + [d] * n
+    es = list(ev.get("e", [])) + [0.0] * len(w)
+    return [float(a) for a in out] + es[:len(w)] + [math.sqrt(v) if v > 0 else 0.0 for v in w] + dd
 
 
 def real_results_script(meta, obs):
@@ -1593,32 +1674,119 @@ def _solve(M, b):
     return [M[i][n] for i in range(n)]
 
 
+def _diffs(xv):
+    """first-order differences of x padded with a zero on both sides (LMRF with zero boundary): n + 1 values"""
+    pad = [0.0] + [float(a) for a in xv] + [0.0]
+    return [pad[r + 1] - pad[r] for r in range(len(pad) - 1)]
+
+
+def real_ls_system(meta, i, want, pt):
+    """independent statement of the stacked least-squares system a LinearRTO / RegularizedLinearRTO / UGLA block must use for
+    the conditional of x given the CURRENT d and l:  rows sqrt(weight) * (coefficients | right-hand side), likelihood rows
+    first, then the prior rows (floats; written from the model definition, nothing read from the sampler)"""
+    names = meta["spec"]["names"]
+    val = {names[b]: [float(a) for a in want[b]] for b in range(len(names)) if b != i}
+    d, l = val["d"][0], val["l"][0]
+    g = float(meta["sigma"])
+    A = [[float(a) / g for a in row] for row in meta["A"]]
+    n = len(A[0])
+    rows = [([math.sqrt(l) * a for a in A[r]], math.sqrt(l) * float(meta["y"][r])) for r in range(len(A))]
+    if meta["model"] == "lmrf":                      # Laplace differences approximated at the sampler's current point
+        dx = _diffs(pt)
+        Dcols = [_diffs([float(j == c) for c in range(n)]) for j in range(n)]          # column j of the difference operator
+        for r in range(n + 1):
+            w = d / math.sqrt(dx[r] ** 2 + UGLA_BETA)
+            rows.append(([math.sqrt(w) * Dcols[j][r] for j in range(n)], 0.0))
+    else:
+        for j in range(n):
+            rows.append(([math.sqrt(d) * float(j == c) for c in range(n)], 0.0))
+    return rows
+
+
+def _lsq(rows, rhs, free):
+    """minimiser of sum_r (<a_r, x> - rhs_r)^2 over x supported on `free` (normal equations, Gauss-Jordan over Fractions)"""
+    n = len(rows[0][0])
+    Fr = lambda v: Fraction(*float(v).as_integer_ratio())
+    Aq = [[Fr(a[c]) for c in free] for a, _ in rows]
+    cq_ = [Fr(v) for v in rhs]
+    H = [[sum(Aq[r][p] * Aq[r][q] for r in range(len(Aq))) for q in range(len(free))] for p in range(len(free))]
+    gq = [sum(Aq[r][p] * cq_[r] for r in range(len(Aq))) for p in range(len(free))]
+    sol = _solve(H, gq) if free else []
+    x = [0.0] * n
+    for c, v in zip(free, sol):
+        x[c] = float(v)
+    return x
+
+
 def real_draw_check(meta, i, want, e):
     """the draw of an exact block sampler is made from the conditional given the TRUE current others"""
-    if meta["model"] != "hier":
-        return None
     names = meta["spec"]["names"]
     others = {names[b]: _F(want[b]) for b in range(len(names)) if b != i}
     g = Fraction(meta["sigma"])
-    A = [[Fraction(a) / g for a in row] for row in meta["A"]]
-    y = [Fraction(v) for v in meta["y"]]
-    n, m = len(A[0]), len(A)
-    if "gamma" in e:
-        f, logc = real_closed_form(meta, i, others)
-        rate = -f([Fraction(1)])                                     # f(p) = -B p
-        shape = logc + 1
+    a_i = meta["assign"][i]
+    if "gamma" in e and meta["model"] in ("hier", "lmrf", "reg"):
         oshape, orate = e["gamma"][0], 1.0 / e["gamma"][1]
-        if abs(oshape - float(shape)) > 1e-9 or abs(orate - float(rate)) > 1e-9 * abs(float(rate)):
-            return ("Conjugate drew from Gamma(shape %.10g, rate %.10g); the conditional given the current other blocks is Gamma(shape %.10g, rate %.10g)"
-                    % (oshape, orate, float(shape), float(rate)))
-    if "zmean" in e:
-        d, l = others["d"][0], others["l"][0]
-        M = [[(d if r == c else 0) + l * sum(A[q][r] * A[q][c] for q in range(m)) for c in range(n)] for r in range(n)]
-        b = [l * sum(A[q][r] * y[q] for q in range(m)) for r in range(n)]
-        mean = [float(v) for v in _solve(M, b)]
-        sc = max(abs(v) for v in mean) + float(g) * 1e-3
-        if any(abs(a - b_) > 1e-5 * sc for a, b_ in zip(e["zmean"], mean)):
-            return "LinearRTO with the normal draw set to 0 returned %s; the mean of the conditional given the current other blocks is %s" % (e["zmean"], mean)
+        shape = rate = None
+        if a_i == "Conjugate" and not (meta["model"] == "reg" and names[i] == "d"):
+            f, logc = real_closed_form(meta if meta["model"] != "reg" else dict(meta, model="lmrf"), i, others)
+            rate = float(-f([Fraction(1)]))                           # f(p) = -B p
+            shape = float(logc + 1)
+        elif a_i == "ConjugateApprox":
+            # documented approximation (Uribe et al. 2022): |t| ~ t^2 / sqrt(t^2 + beta) for every difference t of x:
+            # rate = prior rate + sum_r t_r^2 / sqrt(t_r^2 + beta); the shape the code uses is len(x) + alpha (DESIGN C10 observation)
+            dx = _diffs([float(v) for v in others["x"]])
+            rate = float(meta["bd"]) + sum(t * t / math.sqrt(t * t + 1e-5) for t in dx)
+            shape = float(len(others["x"]) + 1)
+        if rate is not None and (abs(oshape - shape) > 1e-9 or abs(orate - rate) > 1e-9 * abs(rate)):
+            return ("%s drew from Gamma(shape %.10g, rate %.10g); the conditional given the current other blocks is Gamma(shape %.10g, rate %.10g)"
+                    % (a_i, oshape, orate, shape, rate))
+    if "pre" in e:
+        rows = real_ls_system(meta, i, want, e["pt"])
+        n = len(rows[0][0])
+        m = len(meta["A"])
+        close = lambda u, v: abs(u - v) <= 1e-9 * (abs(u) + abs(v)) + 1e-300
+        pre = e["pre"]
+        if a_i == "UGLA":
+            l = float(others["l"][0])
+            exp_L1 = [[math.sqrt(l) * float(r == c) for c in range(m)] for r in range(m)]
+            ok = (pre["m"] == m and len(pre["L1"]) == m and all(len(r_) == m and all(close(u, v) for u, v in zip(r_, x_)) for r_, x_ in zip(pre["L1"], exp_L1))
+                  and all(v == 0.0 for v in pre["loc"]) and len(pre["loc"]) == n)
+            if not ok:
+                return ("UGLA holds precomputed noise square-root precision %s (data length %s, prior location %s); the conditional given the current "
+                        "other blocks has sqrt(l) I = %s" % (pre["L1"], pre["m"], pre["loc"], exp_L1))
+        else:
+            expM, expb = [r_[0] for r_ in rows], [r_[1] for r_ in rows]
+            ok = (len(pre["M"]) == len(expM) and all(len(r_) == n and all(close(u, v) for u, v in zip(r_, x_)) for r_, x_ in zip(pre["M"], expM))
+                  and len(pre["b"]) == len(expb) and all(close(u, v) for u, v in zip(pre["b"], expb)))
+            if not ok:
+                return ("%s holds the precomputed stacked system M = %s, b = %s; for the conditional given the current other blocks it is M = %s, b = %s"
+                        % (a_i, pre["M"], pre["b"], expM, expb))
+            if "stepsize" in pre:
+                top = float(np.linalg.norm(np.asarray(expM), 2)) ** 2
+                if not (0.9 <= pre["stepsize"] * top <= 1.5):
+                    return ("RegularizedLinearRTO holds the step size %.6g; 0.99 / |M|_2^2 of the current conditional's system is %.6g" % (pre["stepsize"], 0.99 / top))
+        if len(e["e"]) != len(rows):
+            return "%s consumed %d normal variates, the stacked system of the conditional has %d rows" % (a_i, len(e["e"]), len(rows))
+        rhs = [b_ + z_ for (_, b_), z_ in zip(rows, e["e"])]
+        if a_i == "RegularizedLinearRTO":
+            # constrained least squares over x >= 0: the support whose restricted solution satisfies the KKT conditions
+            best = None
+            for mask in range(2 ** n):
+                free = [c for c in range(n) if mask >> c & 1]
+                x = _lsq(rows, rhs, free)
+                grad = [sum(a[c] * (sum(a[q] * x[q] for q in range(n)) - t) for a, t in [(r_[0], t_) for r_, t_ in zip(rows, rhs)]) for c in range(n)]
+                top = max(abs(v) for v in x + grad + [1e-300])
+                if all(v >= -1e-9 * top for v in x) and all(grad[c] >= -1e-7 * top for c in range(n) if c not in free):
+                    best = x
+                    break
+            exp_x, tolx = best, 1e-4
+        else:
+            exp_x, tolx = _lsq(rows, rhs, list(range(n))), 1e-5
+        if exp_x is not None:
+            sc = max(abs(v) for v in exp_x) + float(g) * 1e-3
+            if len(e["out"]) != n or any(abs(u - v) > tolx * sc for u, v in zip(e["out"], exp_x)):
+                return ("%s with the scripted normal variates %s returned %s; the perturbed least-squares draw from the conditional given the current other "
+                        "blocks (d, l = %s, %s) is %s" % (a_i, e["e"], e["out"], float(others["d"][0]), float(others["l"][0]), exp_x))
     return None
 
 
@@ -1685,6 +1853,13 @@ def encode_real(meta, obs, fresh=True):
         if real_kind(meta, e["blk"]) != "KConj":
             e2.pop("gshape", None)           # a Conjugate block the model treats as opaque (RegularizedGaussian pair)
         evs.append(coev(e2))
+    if any(real_ls_block(meta, i) for i in range(k)):
+        return "check_hybrid_tol2 %s %s %s %s %s %s %s %s %s %s %s %s %s %s %s %s %s" % (
+            cq(Fraction(1, 10 ** 12)), cbool(fresh), cgjoint(meta), clist([real_lsspec(meta, i) for i in range(k)]),
+            clist([real_kind(meta, i) for i in range(k)]), cvecs(meta["inits"]),
+            clist([cq(real_model_scale(meta, i)) for i in range(k)]), ns, cscript(sc), cops(meta["ops"]),
+            clist([cvecs(p) for p in meta["probes"]]), combos, cq(TOL_REAL), clist(evs), cvecs(obs["cur"]),
+            clist([cvecs(st) for st in obs["stored"]]), cvecs([sm["pt"] for sm in obs["samplers"]]))
     return "check_hybrid_tol %s %s %s %s %s %s %s %s %s %s %s %s %s %s %s" % (
         cbool(fresh), cgjoint(meta), clist([real_kind(meta, i) for i in range(k)]), cvecs(meta["inits"]),
         clist([cq(real_model_scale(meta, i)) for i in range(k)]), ns, cscript(sc), cops(meta["ops"]),
@@ -1697,6 +1872,9 @@ REAL_CELLS = [
     ("real/hier/LinearRTO+Conjugate", "hier", ["d", "l", "x"], ["Conjugate", "Conjugate", "LinearRTO"], None, [("sample", 3)], 0),
     ("real/hier/LinearRTO+Conjugate/x-scale2^-30", "hier", ["x", "d", "l"], ["LinearRTO", "Conjugate", "Conjugate"], [1, 2, 1], [("sample", 3)], -30),
     ("real/hier/LinearRTO+Conjugate/x-scale2^20/warmup", "hier", ["d", "x", "l"], ["Conjugate", "LinearRTO", "Conjugate"], None, [("warmup", 2, 0.5), ("sample", 2)], 20),
+    # a block configured with 0 transitions per sweep stays fixed (l), a least-squares block with 2: both draws from the same conditional
+    ("real/hier/LinearRTO+Conjugate/steps-1,0,2", "hier", ["d", "l", "x"], ["Conjugate", "Conjugate", "LinearRTO"], [1, 0, 2], [("sample", 3)], 0),
+    ("real/lmrf/UGLA+ConjugateApprox+Conjugate/steps-2,0,None", "lmrf", ["x", "d", "l"], ["UGLA", "ConjugateApprox", "Conjugate"], [2, 0, None], [("sample", 3)], 0),
     ("real/hier/NUTS+Conjugate", "hier", ["d", "l", "x"], ["Conjugate", "Conjugate", "NUTS"], None, [("warmup", 2, 0.5), ("sample", 2)], 0),
     ("real/hier/MALA+MH+Conjugate", "hier", ["x", "d", "l"], ["MALA", "MH", "Conjugate"], [2, 1, 1], [("sample", 3)], 0),
     ("real/lmrf/UGLA+ConjugateApprox+Conjugate", "lmrf", ["d", "l", "x"], ["ConjugateApprox", "Conjugate", "UGLA"], None, [("sample", 3)], 0),
@@ -1763,7 +1941,9 @@ def gen_real(rng, cell):
     meta["sscale"] = [sscale.get(nm, 1.0) for nm in names]
     meta["scales"] = [1.0] * k
     nsw_tot = sum(op[1] for op in ops) * 3 + 8
-    meta["zs"] = [[rng.choice([0.5, 0.75, 1.0, 1.5, 2.0, 3.0]) for _ in range(nsw_tot)] if a == "Conjugate" else [] for a in assign]
+    meta["zs"] = [[rng.choice([0.5, 0.75, 1.0, 1.5, 2.0, 3.0]) for _ in range(nsw_tot)] if a in ("Conjugate", "ConjugateApprox") else [] for a in assign]
+    # scripted standard normals (dyadic, incl. 0 and repeats) for the blocks whose draw is a perturbed least-squares solve
+    meta["ens"] = [[dy(rng, -2, 2, 4) for _ in range(nsw_tot * 8)] if a in NOISY else [] for a in assign]
     return meta
 
 
